@@ -999,7 +999,11 @@ func (dsc *dataStoreCommand) expire(keyName string, expiration time.Time, nx, xx
 }
 
 func (dsc *dataStoreCommand) expireTime(keyName string) (expiration time.Time, valid int) {
-	sk, exists := dsc.getKeyObject(keyName)
+	// the deadline is read under the lock: EXPIRE, PERSIST and GETEX update it in place
+	dsc.lock()
+	defer dsc.unlock()
+
+	sk, exists := dsc.getKeyObjectUnlocked(keyName)
 	if !exists {
 		valid = -2
 		return
@@ -1013,7 +1017,11 @@ func (dsc *dataStoreCommand) expireTime(keyName string) (expiration time.Time, v
 }
 
 func (dsc *dataStoreCommand) persist(keyName string) (output respValue) {
-	sk, exists := dsc.getKeyObject(keyName)
+	// the deadline is cleared under the lock, like every other update of a key
+	dsc.lock()
+	defer dsc.unlock()
+
+	sk, exists := dsc.getKeyObjectUnlocked(keyName)
 	if !exists || !sk.expiresAt.Before(maxTime) {
 		output.data = respInt(0)
 		return
